@@ -364,4 +364,6 @@ def run(db, chk):
     chk.absorb(db, "C05", {"C05-M1"}, "C12-V5", "base levels, masked nodes and pits are recognisable by the eroder: the "
                "multiple-direction router leaves them a single self receiver (count one) at every update (shared "
                "with C05-M1)", min_instances=100)
+    chk.absorb(db, "C20", {"C20-T5"}, "C12-V7", "the single_flow() answer the eroder's exponent check relies on is not 'true' "
+               "for a snapshot graph holding a multiple-direction state (shared with C20-T5)", min_instances=1)
     chk.count_scenarios(n_sc, False)
